@@ -57,7 +57,9 @@ INSTANCE Heartbeat
 
 VARIABLES hk, pushes, lastHb, closing, dropped, desc
 
-vars == <<hbvars, hk, pushes, lastHb, closing, dropped, desc, tvars>>
+\* (the instantiated `hbvars` cannot be primed by TLC, hence the local copy)
+svars == <<h, now, lastRx, lastTx, rxDue, txDue, outQueued, dead, srvLast, steady, deadAt, nHb>>
+vars == <<svars, hk, pushes, lastHb, closing, dropped, desc, tvars>>
 
 Fresh ==
     /\ h = 0 /\ now = 0 /\ lastRx = 0 /\ lastTx = 0 /\ rxDue = 0 /\ txDue = 0
@@ -194,7 +196,7 @@ TPanic ==
     /\ Keep(<<h, lastRx, lastTx, rxDue, txDue, outQueued, dead, srvLast, steady, deadAt, nHb,
               hk, pushes, lastHb, closing, dropped, desc>>)
 
-TSkip == Skipping /\ Skip /\ UNCHANGED <<hbvars, hk, pushes, lastHb, closing, dropped, desc>>
+TSkip == Skipping /\ Skip /\ UNCHANGED <<svars, hk, pushes, lastHb, closing, dropped, desc>>
 
 Next == IF Skipping THEN TSkip
         ELSE (TReset \/ TPlain \/ TOpen \/ TTuneOk \/ TClientWrite \/ TServerPush \/ THbEv
